@@ -25,8 +25,10 @@ import seqcheck
 
 SPEC = {
     "prop": "C05",
-    "lean_targets": ["InfernoVerif.Props.C05"],
-    "prop_files": ["InfernoVerif/Props/C05.lean"],
+    "lean_targets": ["InfernoVerif.Props.C05", "InfernoVerif.Props.C05Glue", "InfernoVerif.Gen.Dispatch"],
+    "translate": ["ConvSites"],
+    "driver_targets": ["InfernoVerif.Model.Conn", "InfernoVerif.Drv.Proto", "InfernoVerif.Gen.Dispatch"],
+    "prop_files": ["InfernoVerif/Props/C05.lean", "InfernoVerif/Props/C05Glue.lean"],
     "lemma_files": ["InfernoVerif/Lemmas/Conn.lean"],
     "model_files": ["InfernoVerif/Model/Conn.lean"],
     "driver": "drivers/C05.lean",
@@ -494,6 +496,8 @@ def nonfinite_probe():
 
 def explore(ctx) -> Exploration:
     ex = Exploration()
+    import transval
+    transval.validate(ctx, SPEC["translate"], ex, per_fn=80)   # generated output-size expression vs the compiled source expression
     rng = ctx.rng
     thorough = ctx.tier == "thorough" or ctx.intensify
     cases = corpus_cases()
